@@ -435,7 +435,33 @@ pub fn gen_text(rng: &mut Rng, pool: &Pool, cfg: &GenCfg, nwords: usize) -> Stri
             s.push_str(rng.word(&SEPS));
         }
         if exotic_pct > 0 && rng.chance(exotic_pct, 100) {
-            s.push_str(rng.word(&EXOTIC));
+            if rng.chance(1, 3) {
+                // arbitrary scalar values from a few blocks (letters with odd case mappings,
+                // combining marks, RTL, CJK, emoji, separators, specials)
+                for _ in 0..rng.range(1, 3) {
+                    let (lo, hi) = *rng.pick(&[
+                        (0x00A0u32, 0x024F),
+                        (0x0300, 0x036F),
+                        (0x0370, 0x03FF),
+                        (0x0400, 0x04FF),
+                        (0x0590, 0x06FF),
+                        (0x1E00, 0x1FFF),
+                        (0x2000, 0x206F),
+                        (0x2100, 0x218F),
+                        (0x3040, 0x30FF),
+                        (0x4E00, 0x4FFF),
+                        (0xFB00, 0xFB4F),
+                        (0xFF00, 0xFFEF),
+                        (0x1F300, 0x1F6FF),
+                        (0x10400, 0x1044F),
+                    ]);
+                    if let Some(c) = char::from_u32(lo + rng.below((hi - lo + 1) as usize) as u32) {
+                        s.push(c);
+                    }
+                }
+            } else {
+                s.push_str(rng.word(&EXOTIC));
+            }
             if rng.chance(1, 2) {
                 s.push_str(rng.word(&SEPS));
             }
